@@ -1,0 +1,16 @@
+//go:build verif
+
+package builtin
+
+import "github.com/open2b/scriggo/native"
+
+// Verification hooks for property C25 (add-only, compiled only with -tags verif).
+
+// VerifOnlyJSONWhitespace exposes onlyJSONWhitespace.
+func VerifOnlyJSONWhitespace(s string) bool { return onlyJSONWhitespace(s) }
+
+// VerifTrimJSONSpace exposes trimJSONSpace.
+func VerifTrimJSONSpace(data native.JSON) native.JSON { return trimJSONSpace(data) }
+
+// VerifLookupJSONSpaceLen is the number of entries of lookupJSONSpace.
+func VerifLookupJSONSpaceLen() int { return len(lookupJSONSpace) }
